@@ -1272,7 +1272,7 @@ def run(ctx):
     ctx.build_harness()
     if not ok:
         # a proof broke and make stopped: the proof-free model files are still needed by the evaluations below
-        ctx.coq_make(['-k', 'C06/Model.vo', 'C06/Lr.vo', 'C06/Actions.vo', 'C06/ActionsKinds.vo', 'C06/ActionsAutomaton.vo'])
+        ctx.coq_make(['-k', 'C06/Model.vo', 'C06/ModelExt.vo', 'C06/Lr.vo', 'C06/Actions.vo', 'C06/ActionsKinds.vo', 'C06/ActionsAutomaton.vo'])
     if not ok and any('TablesProofs' in b or 'proof-gate' in b for b in ctx.broken):
         try:
             tables_replay(ctx)
@@ -1394,6 +1394,10 @@ def run(ctx):
     from props import c06lex
     lex_cov = c06lex.lexer_section(ctx, sys.modules[__name__])
     lex_cov.update(c06lex.text_section(ctx, sys.modules[__name__]))
+    # the extended Spec (coq/C06/ModelExt.v: binders, collections, ranges, argument lists; C06_roundtrip_*_ext, C06_needed_paren_ext) against
+    # the real parser: both renderings and every pair of parentheses removed, props/c06ext.py
+    from props import c06ext
+    lex_cov.update(c06ext.ext_section(ctx, sys.modules[__name__]))
     for i, mj in act_dis:
         cases[i]['actions_model'] = mj if mj is not None else 'rejected'
     hist = {}
@@ -1447,15 +1451,19 @@ def run(ctx):
              'postfix neighbours, binders, collections, ranges, unary tests) rendered minimally, fully parenthesised and with each needed pair removed, '
              'layouts tight / single space / Unicode white space / comments / several comments in a row, comment bodies adversarial (runs of 0..6 stars after the opening and before the closing, slashes, terminator look-alikes, comment openers, quotes, CR/LF/CRLF/no line end at the end of input, non-ASCII); literals in every spelling; '
              'every case with a token list is also parsed by the full model (tables + all semantic actions) and compared node by node, plus %d directed inputs over the six entry points; '
+             'trees of the extended Spec (every open construct in every operand position + random ones) rendered by the Coq renderers, minimal / full / each pair of parentheses removed, parsed by the real parser and by the extended Spec parser; '
              'non-trivial = distinct input texts of non-atomic trees' % len(DIRECTED),
         extra_cov={'renderings': hist, 'model_rendered_fragment_trees': len(owners), 'model_decoded_string_literals': len(lits), 'model_skipped_layouts': len(gaps), 'tables_acceptance_checked': len(acc_cases), 'tables_acceptance_disagreements': acc_bad, 'model_failures': model_failures, **act_cov, **lex_cov,
                    'tables': 'Gen/LalrTables.v regenerated from feel-parser/src/lalr.rs on this run (2312 pairs + 78608 triples re-proved when it changes)'},
         assumptions=['names are single words bound in the parsing scope (multi-word names are C10)',
                      'lexical rules of the text level applied by the renderer: a keyword is followed by white space; `and`/`between` at the top level of a '
-                     'between lower bound is parenthesised; `x instance of T` is parenthesised before `.`; `function` is followed by `(` with only white space between'],
+                     'between lower bound is parenthesised; `x instance of T` is parenthesised before `.`; `function` is followed by `(` with only white space between',
+                     'extended Spec section (props/c06ext.py): token lists that the lexer reads differently from the Spec tokens are skipped and counted (ext_spec_skipped_lexical): '
+                     '`and` or another between inside a between lower bound (known finding between-lower-bound-and), `instance of T` directly followed by `.`, `function` no longer '
+                     'followed by `(` after the parentheses of its parameter list were removed (it then begins a name)'],
         trusted=['translators/lalr2coq.py (reads the const arrays, TokenType and the reduce arms of lalr.rs by stable syntax)',
                  'translators/lalr2coq.py reading of feel-grammar/src/feel.y (rules, mid-rule actions numbered as bison does; cross-checked against YY_R2, the reduce arms and their comments in lalr.rs, and again in coq/C06/ActionsProofs.v against YY_R1/YY_R2)',
-                 'harness sub-command dv ast (AstNode -> JSON tree)', 'harness sub-command dv tokens over the read-only hook dmntk_feel_parser::verif_tokens (commit 81e6a85, behind --cfg dmntk_verif)', 'Python renderer for the constructs outside the proved operator fragment',
+                 'harness sub-command dv ast (AstNode -> JSON tree)', 'harness sub-command dv tokens over the read-only hook dmntk_feel_parser::verif_tokens (commit 81e6a85, behind --cfg dmntk_verif)', 'Python renderer for the constructs outside the extended Spec (unary tests, `x in (a, b)`, string keys; the constructs of the extended Spec are also rendered by the Coq renderers, props/c06ext.py)',
                  'Python tokeniser of the rendered token lists for the full model (token types from the renderer flags, token values from the generated literals); the lexer itself is exercised only through the real parser',
                  'hand-reviewed expected trees of the directed inputs (props/c06.py DIRECTED_EXPECTED)'])
 
@@ -1485,5 +1493,5 @@ def replay(ctx, path):
 
 MANIFEST = dict(
     technique='Coq proof (round trip of a precedence-climbing Spec parser for all trees; finite theorem on the LALR tables regenerated from lalr.rs every run) with parser/model correspondence',
-    text='coq/Props/C06.v: the committed LALR tables, translated from feel-parser/src/lalr.rs on every run, are proved (vm_compute, bound stated) to build on every ordered pair and triple of operators the tree the Spec parser dictates; the Spec theorems hold for all trees of the operator fragment (no bound): both renderings round-trip (C06_roundtrip_*_tokens), and every pair of parentheses of the minimal rendering is needed (C06_needed_paren / C06_needed_paren_at / C06_all_needed, from the counting soundness invariant C06_min_rendering_minimal: any token list that parses to t has at least the parentheses of render_min t); string-literal decoding has its own model. Text level (coq/C06/Lexer.v = model of Lexer::next_token iterated with its four flags; C06_lex_unlex[_layout]: it reads back every printable token list from the printed text, one space or any layout of the modelled grammar between tokens; C06_text_roundtrip_min/full[_layout]: parse_text = lexer model + Spec parser gives the tree back from the TEXT of both renderings, for all trees outside the known finding between-lower-bound-and, C06_text_between_lower_and_refuted for that class); the token stream of the real lexer (hook verif_tokens, dv tokens) is compared with the model token by token (kind, value, position, flags) on printable lists in every layout, every token kind x every white space character / comment, and adversarial glued texts with explicit flag settings. The real lexer, driver and actions are tied to the Spec by parsing generated trees of the whole language in minimal / full / one-pair-removed renderings under token-preserving layouts and comparing AstNode trees. coq/C06/Actions.v models the whole parser on token lists (the loop of Parser::parse over the regenerated tables with all 90 reduce actions of parser.rs, selected by the action names read from lalr.rs): every generated case of every construct and directed inputs for types, external bodies, date and time literals and the six entry points are run through it and compared node by node with the real parser. C06_actions_stack_safe: for every rule of feel.y (read with the tables on every run) the action of the rule, on every concrete node stack whose top has the kinds the right-hand side symbols are declared to leave, returns Ok and leaves what the left-hand side declares (no pop error, no index panic, no dropped node; abstract actions on node kinds proved sound for all stacks + sweep over the 150 rules); C06_parse_full_safe lifts this to whole parses: on every list of lexer-shaped tokens (token value = the one of the terminal; the check evaluates this test on every token list it feeds to the model) the parser model never raises a pop error, never indexes out of bounds, never accepts with other than one node -- by an invariant over the LR automaton read off the regenerated tables (transitions closed under the moves of the driver; the right-hand side of every reducible rule found on every path: the LR invariant as a finite check). C06_list_roundtrip / C06_nested_lists_roundtrip: lists of every length and nesting round-trip through parse_full (induction through the list_tail actions over the regenerated tables).',
-    note='Trusted: Coq kernel + vm_compute, lalr2coq.py, the Spec reading of feel.y lines 73-90, harness dv ast, Python renderer for binders/collections (not covered by the Spec theorems), the reading of feel.y by lalr2coq.py (checked against YY_R1/YY_R2 and the reduce arms in Coq), the declared stack effects of the grammar symbols (checked by the sweep), the Python tokeniser feeding the full model. The grammar names of the terminals are the TokenType names in upper snake case (a wrong name fails the finite automaton check).')
+    text='coq/Props/C06.v: the committed LALR tables, translated from feel-parser/src/lalr.rs on every run, are proved (vm_compute, bound stated) to build on every ordered pair and triple of operators the tree the Spec parser dictates; the Spec theorems hold for all trees of the operator fragment (no bound): both renderings round-trip (C06_roundtrip_*_tokens), and every pair of parentheses of the minimal rendering is needed (C06_needed_paren / C06_needed_paren_at / C06_all_needed, from the counting soundness invariant C06_min_rendering_minimal: any token list that parses to t has at least the parentheses of render_min t); string-literal decoding has its own model. EXTENDED language (coq/C06/ModelExt.v: operator fragment + if, for .. in .. [, ..] return, some / every .. satisfies, function (params) body, lists, contexts, ranges with atom endpoints in all nine bracket combinations, invocations with positional and named argument lists; a precedence-climbing Spec parser compared with the real parser on every run by props/c06ext.py: the Coq renderings, minimal / full / each pair of parentheses removed, of every open construct in every operand position and of random trees): C06_roundtrip_min_ext / C06_roundtrip_full_ext hold for ALL trees (no bound on depth or list length), erender_min parenthesises an open construct (if / for / some / every / function) exactly where a continuing token follows (left of an operator, not right: C06_open_left_needed_ext, C06_open_right_bare_ext) and any other operand exactly where its level is below the level of its position; C06_needed_paren_ext / _split_ext / _at_ext: every pair of the minimal rendering is needed (counting invariant C06_min_rendering_minimal_ext, with the flag `a continuing token follows` in the invariant); C06_fuel_suffices_ext; C06_ext_conservative (on the operator fragment the extended renderers and parser agree with the old ones); text level C06_text_roundtrip_*_ext / C06_parse_text_unlex_ext / C06_text_needed_paren_ext for the token lists without for / some / every / function, C06_text_roundtrip_ext_partial for every tree without such a node (binder_free) (these keywords are outside C06_lex_unlex; the full statement is kept as C06_text_roundtrip_ext_statement). Text level (coq/C06/Lexer.v = model of Lexer::next_token iterated with its four flags; C06_lex_unlex[_layout]: it reads back every printable token list from the printed text, one space or any layout of the modelled grammar between tokens; C06_text_roundtrip_min/full[_layout]: parse_text = lexer model + Spec parser gives the tree back from the TEXT of both renderings, for all trees outside the known finding between-lower-bound-and, C06_text_between_lower_and_refuted for that class); the token stream of the real lexer (hook verif_tokens, dv tokens) is compared with the model token by token (kind, value, position, flags) on printable lists in every layout, every token kind x every white space character / comment, and adversarial glued texts with explicit flag settings. The real lexer, driver and actions are tied to the Spec by parsing generated trees of the whole language in minimal / full / one-pair-removed renderings under token-preserving layouts and comparing AstNode trees. coq/C06/Actions.v models the whole parser on token lists (the loop of Parser::parse over the regenerated tables with all 90 reduce actions of parser.rs, selected by the action names read from lalr.rs): every generated case of every construct and directed inputs for types, external bodies, date and time literals and the six entry points are run through it and compared node by node with the real parser. C06_actions_stack_safe: for every rule of feel.y (read with the tables on every run) the action of the rule, on every concrete node stack whose top has the kinds the right-hand side symbols are declared to leave, returns Ok and leaves what the left-hand side declares (no pop error, no index panic, no dropped node; abstract actions on node kinds proved sound for all stacks + sweep over the 150 rules); C06_parse_full_safe lifts this to whole parses: on every list of lexer-shaped tokens (token value = the one of the terminal; the check evaluates this test on every token list it feeds to the model) the parser model never raises a pop error, never indexes out of bounds, never accepts with other than one node -- by an invariant over the LR automaton read off the regenerated tables (transitions closed under the moves of the driver; the right-hand side of every reducible rule found on every path: the LR invariant as a finite check). C06_list_roundtrip / C06_nested_lists_roundtrip: lists of every length and nesting round-trip through parse_full (induction through the list_tail actions over the regenerated tables).',
+    note='Trusted: Coq kernel + vm_compute, lalr2coq.py, the Spec reading of feel.y lines 73-90, harness dv ast, Python renderer for unary tests / `x in (a, b)` / string keys (outside the extended Spec; binders, collections, ranges and argument lists are rendered by the Coq renderers of the extended Spec as well), the reading of feel.y by lalr2coq.py (checked against YY_R1/YY_R2 and the reduce arms in Coq), the declared stack effects of the grammar symbols (checked by the sweep), the Python tokeniser feeding the full model. The grammar names of the terminals are the TokenType names in upper snake case (a wrong name fails the finite automaton check).')
